@@ -292,6 +292,10 @@ class C10(Check):
                     finally:
                         Vertex.NEIGHBOR_CACHING = False
                     self.stats10["loads"] += 1
+                    if proto in (2, 5) and loader is pickle and not caching:
+                        m = self.usable(V2, L2, W2, after)
+                        if m:
+                            return "the copy (protocol %d) is not fully usable: %s" % (proto, m)
                     if any(a is b for a, b in zip(V, V2)):
                         return "the copy shares an object with the original"
                     if after != before or again != before:
@@ -313,6 +317,45 @@ class C10(Check):
                 if pr.returncode != 0 or got != before + before:
                     return "loading in a fresh interpreter (%s, protocol %d, caching %s) failed or differs: rc=%d %s" % (
                         loader, proto, caching, pr.returncode, pr.stderr.decode()[-300:])
+        return None
+
+    @staticmethod
+    def usable(V2, L2, W2, desc):
+        """the copy behaves like a graph built in this interpreter: no-op calls are no-ops, a new
+        vertex / link can be added and removed again, leaving the copy as it was"""
+        from edgegraph.structure import DirectedEdge
+        from edgegraph.builder import explicit
+        for u in V2:
+            if isinstance(u, Universe):
+                for m in u.vertices:
+                    u.add_vertex(m)                  # already present: no action
+                    m.add_to_universe(u)
+        for v in V2:
+            for l in v.links:
+                v.add_to_link(l)                     # already associated: no action
+        if describe(V2, L2, W2) != desc:
+            return "repeating add_vertex / add_to_universe / add_to_link for existing associations changed the copy"
+        fresh = Vertex()
+        for u in V2:
+            if isinstance(u, Universe):
+                u.add_vertex(fresh)
+                if sum(1 for x in u.vertices if x is fresh) != 1 or not any(x is u for x in fresh.universes):
+                    return "a new vertex could not be added to a loaded universe exactly once"
+                u.remove_vertex(fresh)
+        if V2:
+            e = DirectedEdge(V2[0], fresh)
+            try:
+                seen = any(x is fresh for x in helpers.neighbors(V2[0], 0, 1))
+            except (AttributeError, IndexError):
+                seen = True          # the graph holds an n-ary / one-ended link: neighbors() raises on the original too
+            if not seen:
+                return "a new edge on a loaded vertex is not seen by neighbors()"
+            e.unlink_from(fresh)
+            e.unlink_from(V2[0])
+            if any(x is e for x in V2[0].links):
+                return "unlinking on a loaded vertex left the link attached"
+        if describe(V2, L2, W2) != desc:
+            return "adding and removing a vertex / an edge did not leave the copy as it was"
         return None
 
     @staticmethod
